@@ -521,6 +521,22 @@ func (t *tr) stmt(s ast.Stmt) []string {
 		return []string{fmt.Sprintf(".ifs [] (.bool true) %s []", t.block(x.List))}
 	case *ast.SwitchStmt:
 		return t.switchStmt(x)
+	case *ast.TypeSwitchStmt:
+		return t.typeSwitchStmt(x)
+	case *ast.ForStmt:
+		// for init; cond; post { body } — `.forc`; a bare `for {}` / `for cond {}` has empty init/post
+		init, post := "[]", "[]"
+		if x.Init != nil {
+			init = "[" + strings.Join(t.stmt(x.Init), ", ") + "]"
+		}
+		if x.Post != nil {
+			post = "[" + strings.Join(t.stmt(x.Post), ", ") + "]"
+		}
+		cond := "(.bool true)"
+		if x.Cond != nil {
+			cond = t.expr(x.Cond)
+		}
+		return []string{fmt.Sprintf(".forc %s %s %s %s", init, cond, post, t.block(x.Body.List))}
 	}
 	return []string{t.unsupported(fmt.Sprintf("%T", s), s)}
 }
@@ -614,6 +630,94 @@ func hasBareBreak(stmts []ast.Stmt) bool {
 		})
 	}
 	return found
+}
+
+// typeSwitchStmt: `switch [init;] [v :=] x.(type) { case T, U: … case nil: … default: … }` becomes `$ts := x` and an if/else
+// chain of comma-ok assertions (first matching clause, `default` last). In a single-type clause `v` is the asserted value,
+// otherwise `x` itself. Refused with break/fallthrough, like the expression switch.
+func (t *tr) typeSwitchStmt(x *ast.TypeSwitchStmt) []string {
+	var clauses []*ast.CaseClause
+	var deflt *ast.CaseClause
+	for _, c := range x.Body.List {
+		cc := c.(*ast.CaseClause)
+		if hasBareBreak(cc.Body) {
+			return []string{t.unsupported("type switch with break/fallthrough", x)}
+		}
+		if cc.List == nil {
+			deflt = cc
+		} else {
+			clauses = append(clauses, cc)
+		}
+	}
+	var pre []string
+	if x.Init != nil {
+		pre = append(pre, t.stmt(x.Init)...)
+	}
+	bound := ""
+	var guard *ast.TypeAssertExpr
+	switch a := x.Assign.(type) {
+	case *ast.ExprStmt:
+		guard, _ = a.X.(*ast.TypeAssertExpr)
+	case *ast.AssignStmt:
+		if len(a.Lhs) == 1 && len(a.Rhs) == 1 {
+			if id, ok := a.Lhs[0].(*ast.Ident); ok {
+				bound = id.Name
+			}
+			guard, _ = a.Rhs[0].(*ast.TypeAssertExpr)
+		}
+	}
+	if guard == nil {
+		return []string{t.unsupported("type switch guard", x)}
+	}
+	pre = append(pre, fmt.Sprintf(".define [\"$ts\"] %s", t.expr(guard.X)))
+	withBound := func(body string, val string) string {
+		if bound == "" {
+			return body
+		}
+		inner := strings.TrimSuffix(strings.TrimPrefix(body, "["), "]")
+		def := fmt.Sprintf(".define [%s] %s", lq(bound), val)
+		if inner == "" {
+			return "[" + def + "]"
+		}
+		return "[" + def + ",\n  " + inner + "]"
+	}
+	chain := "[]"
+	if deflt != nil {
+		chain = withBound(t.block(deflt.Body), "(.var \"$ts\")")
+	}
+	for i := len(clauses) - 1; i >= 0; i-- {
+		cc := clauses[i]
+		var inits []string
+		cond := ""
+		for j, e := range cc.List {
+			one := ""
+			if id, ok := e.(*ast.Ident); ok && id.Name == "nil" {
+				one = "(.bin \"==\" (.var \"$ts\") .nil)"
+			} else {
+				v := fmt.Sprintf("$v%d", j)
+				inits = append(inits, fmt.Sprintf(".define [%s, %s] (.assert2 (.var \"$ts\") %s)", lq(v), lq(fmt.Sprintf("$ok%d", j)), lq(exprName(e))))
+				one = fmt.Sprintf("(.var %s)", lq(fmt.Sprintf("$ok%d", j)))
+			}
+			if j == 0 {
+				cond = one
+			} else {
+				cond = fmt.Sprintf("(.bin \"||\" %s %s)", cond, one)
+			}
+		}
+		val := "(.var \"$ts\")"
+		if len(cc.List) == 1 {
+			if id, ok := cc.List[0].(*ast.Ident); !ok || id.Name != "nil" {
+				val = "(.var \"$v0\")"
+			}
+		}
+		chain = fmt.Sprintf("[.ifs [%s] %s %s %s]", strings.Join(inits, ", "), cond, withBound(t.block(cc.Body), val), chain)
+	}
+	inner := strings.TrimSuffix(strings.TrimPrefix(chain, "["), "]")
+	all := append(pre, inner)
+	if inner == "" {
+		all = pre
+	}
+	return []string{fmt.Sprintf(".ifs [] (.bool true) [%s] []", strings.Join(all, ",\n  "))}
 }
 
 // switchStmt: `switch init; tag { case a, b: … default: … }` becomes `$tag := tag` and an if/else chain (first matching
